@@ -1220,7 +1220,7 @@ class FunctionScope(Scope):
         rest_scope = {
             key: [node for node in nodes if node not in old_defn_nodes.get(key, ())]
             for key, nodes in new_defn_nodes.items()
-            if key != LEAVES_SCOPE
+            if key != LEAVES_SCOPE and key != LEAVES_LOOP
         }
         rest_scope = {key: nodes for key, nodes in rest_scope.items() if nodes}
         with self.subscope() as dummy_subscope:
